@@ -13,10 +13,10 @@ git diff --stat | tail -1
 cd /verif/sim
 D=$(mktemp -d /verif/.build/devmut.XXXXXX)
 if [ "$ENGINE" = race ]; then
-  go1.26.8 test -c -race -o $D/t.test . 2>&1 | tail -5
+  go1.26.8 test -c -tags verif -race -o $D/t.test . 2>&1 | tail -5
   GORACE="log_path=$D/race halt_on_error=0" VERIF_SCRATCH=$D VERIF_DEV=$spec VERIF_DEV_TIER=$VERIF_DEV_TIER GOMAXPROCS=4 timeout 900 $D/t.test -test.run TestDev -test.v -test.timeout 0 2>&1 | grep "^VIOL\|^infra\|^runs\|rror\|panic\|undefined\|FAIL" | cut -c1-260
 else
-  VERIF_SCRATCH=$D VERIF_DEV=$spec VERIF_DEV_TIER=$VERIF_DEV_TIER GOMAXPROCS=1 timeout 900 go1.26.8 test -count=1 -v -timeout 0 -run TestDev . 2>&1 | grep "^VIOL\|^infra\|^runs\|rror\|panic\|undefined\|FAIL" | cut -c1-260
+  VERIF_SCRATCH=$D VERIF_DEV=$spec VERIF_DEV_TIER=$VERIF_DEV_TIER GOMAXPROCS=1 VERIF_HELPER=/verif/.build/bin/vhelper timeout 1500 go1.26.8 test -tags verif -count=1 -v -timeout 0 -run TestDev . 2>&1 | grep "^VIOL\|^infra\|^runs\|rror\|panic\|undefined\|FAIL" | cut -c1-260
 fi
 /bin/rm -rf "$D"
 cd /repo && git checkout -- .
